@@ -154,7 +154,7 @@ def table(rng, case, idx):
                 except Exception:
                     pass
         for _ in range(100):
-            v = rng.choice([0, 1, rng.uniform(1e-6, 1e6)])
+            v = rng.choice([0, 1, rng.uniform(1e-6, 1e6), 10 ** rng.uniform(-6, 6)])
             u = rng.choice([p + 'L' for p in PREF] + [p + 'mol' for p in PREF])
             try:
                 st = U.convert_to_storage(v, u)
